@@ -7,6 +7,7 @@ package main
 import (
 	"flag"
 	"fmt"
+	"net"
 	"os"
 	"sync"
 	"sync/atomic"
@@ -14,19 +15,21 @@ import (
 
 	"github.com/AliceO2Group/Control/common/event"
 	"github.com/AliceO2Group/Control/common/event/topic"
+	pb "github.com/AliceO2Group/Control/common/protos"
 	"github.com/AliceO2Group/Control/core/the"
+	"github.com/spf13/viper"
 
 	"verif/harness/vtrace"
 )
 
 type recWriter struct {
-	id     int64
-	closed int32
+	id      int64
+	closed  int32
 	onClose func(id int64)
 }
 
-func (w *recWriter) WriteEvent(interface{})                             {}
-func (w *recWriter) WriteEventWithTimestamp(interface{}, time.Time)      {}
+func (w *recWriter) WriteEvent(interface{})                         {}
+func (w *recWriter) WriteEventWithTimestamp(interface{}, time.Time) {}
 func (w *recWriter) Close() {
 	if atomic.CompareAndSwapInt32(&w.closed, 0, 1) {
 		w.onClose(w.id)
@@ -108,7 +111,67 @@ func main() {
 		mu.Unlock()
 		rec.Emit("Cleared", "scn", r)
 	}
+	blackHole(rec, *rounds+1)
 	rec.Emit("End", "scn", *rounds)
 	rec.Close()
 	fmt.Printf("rounds=%d lines=%d\n", *rounds, rec.Lines())
+}
+
+// blackHole: the registry hands out REAL writers (no injected stand-ins, enableKafka) for a broker that accepts TCP connections
+// and never answers. Producers publish on new topics and on topics that already have a writer; a publication must return at
+// once whatever the broker does. The writers are left behind (closing them would wait for the broker's time-outs).
+func blackHole(rec *vtrace.Recorder, scn int) {
+	lis, err := net.Listen("tcp", "127.0.0.1:0")
+	if err != nil {
+		fmt.Fprintln(os.Stderr, err)
+		os.Exit(2)
+	}
+	go func() {
+		var held []net.Conn
+		for {
+			c, err := lis.Accept()
+			if err != nil {
+				return
+			}
+			held = append(held, c) // accepted, never read, never answered
+		}
+	}()
+	the.VerifSetWriterFactory(nil)
+	viper.Set("enableKafka", true)
+	viper.Set("kafkaEndpoints", []string{lis.Addr().String()})
+	rec.Emit("Reset", "scn", scn)
+	const bound = 4 * time.Second
+	total := 0
+	done := make(chan time.Duration, 256)
+	publish := func(tp string, n int) {
+		total++
+		go func() {
+			t0 := time.Now()
+			the.EventWriterWithTopic(topic.Topic(tp)).WriteEvent(&pb.Ev_EnvironmentEvent{EnvironmentId: "e", Message: fmt.Sprintf("%s:%d", tp, n)})
+			done <- time.Since(t0)
+		}()
+	}
+	for k := 0; k < 4; k++ { // first events on four new topics, released together ...
+		publish(fmt.Sprintf("verif.bh.t%d", k), 1)
+	}
+	time.Sleep(50 * time.Millisecond)
+	for k := 0; k < 4; k++ { // ... then more on the same topics and on a fifth
+		publish(fmt.Sprintf("verif.bh.t%d", k), 2)
+	}
+	publish("verif.bh.t4", 1)
+	returned, max := 0, time.Duration(0)
+	deadline := time.After(bound)
+collect:
+	for returned < total {
+		select {
+		case d := <-done:
+			returned++
+			if d > max {
+				max = d
+			}
+		case <-deadline:
+			break collect
+		}
+	}
+	rec.Emit("BlackHole", "scn", scn, "total", total, "returned", returned, "bound_ms", int(bound/time.Millisecond), "max_ms", int(max/time.Millisecond))
 }
